@@ -28,8 +28,9 @@ TRUSTED = [
     "expiry/refresh, pinned to the normalised source and compared behaviourally after every operation",
     "the declare_states table is regenerated from the source on every run and must equal the table the "
     "model uses (Gen_C33.gen_states_ok)",
-    "snapshot-stack database semantics (engine/RefDb.v; SessTxnDb.v proves the model's database steps are "
-    "RefDb.exec_cmd steps), validated against sqlite3 by C23 on every run",
+    "snapshot-stack database semantics: the COMMIT/ROLLBACK/SAVEPOINT/RELEASE/ROLLBACK TO steps of SessTxn.v "
+    "are the exec_cmd of engine/RefDb.v over Z->option Z tables (ROLLBACK TO is followed by the forgetting of "
+    "the savepoint, which the session never names again); RefDb is validated against sqlite3 by C23",
 ]
 ASSUMPTIONS = [
     "one mapped class without relationships, integer primary key supplied by the application, one bind; "
@@ -1192,7 +1193,38 @@ def match_finding(c, what):
 
 LEVEL_TEXT = (
     "Machine-checked proofs (Coq) over the Gallina transcription of SessionTransaction/Session transaction "
-    "control for arbitrary histories (induction over the operation list)."
+    "control, snapshot bookkeeping, the unit-of-work statement list of one mapped class and attribute "
+    "expiry/refresh, for ARBITRARY histories (induction over the operation list). T1 state_machine_closed: "
+    "for every history, no IllegalStateChangeError, only the innermost transaction can be DEACTIVE, every "
+    "transaction moves ACTIVE -> DEACTIVE -> CLOSED only, illegal calls raise and change nothing; the "
+    "declare_states table is regenerated from the source on every run. T2 session_agrees_with_db: REFUTED "
+    "for unrestricted histories (five witnesses = five known findings, replayed on the implementation); "
+    "GUARDED version proved for every history outside the five defective regions: after every operation "
+    "every persistent object has its row and equals it, nothing is left pending/modified after a "
+    "commit/rollback - by an invariant relating every open transaction (and savepoint) to the snapshot it "
+    "would restore, proved preserved by all 13 operations including failing flushes at any statement. "
+    "T3 (partial): committed rows change only at the outermost commit, which publishes exactly the "
+    "connection's rows; rollback restores them; the database savepoint stack mirrors the transaction stack."
 )
-LEVEL_NOTE = "see final report"
+LEVEL_NOTE = (
+    "partial. Guard of the proved agreement theorem (coq/orm/SessTxnSpec.v guard): g1 handle.rollback() of a "
+    "savepoint that is not the innermost open one; g2 handle.commit()/Session.commit() releasing a savepoint "
+    "whose key switch meets a key switch of the same object in an enclosing scope (incl. unflushed primary-key "
+    "changes; for Session.commit this is a limit of the proof, not a defect); g3 add() of an object whose "
+    "_deleted flag survived an expunge; g5 delete() of an object already in the deleted state; g6 close() while "
+    "an object is in the deleted state; and: no new/add/assign/delete while a failed flush waits for its "
+    "rollback. g1 g2 g3 g5 g6 are reproduced defects (findings/C33.json). T3 is partial: the value side of the "
+    "nested-transaction reference (the rows a flush writes are exactly the pending object changes) is not "
+    "proved, only compared on the implementation after every operation (oracle: commit/release/rollback laws "
+    "on the user-visible table). Outside the model (Unmodelled, never generated): row switch (pending object "
+    "taking the key of one marked deleted), re-attaching detached objects, a pending object without primary "
+    "key value, two flushed objects with one identity key, exceptions from inside _restore_snapshot, a "
+    "statement failure inside a savepoint while later statements of the same flush still have to SELECT an "
+    "expired primary key (persistence collects batch parameters first). Not covered at all: relationships and "
+    "cascades, several mapped classes/binds, two-phase, events, refresh/expire/expunge/merge API calls, "
+    "autoflush=False, join_transaction_mode, garbage-collected objects, COMMIT/ROLLBACK failing at the "
+    "database, other databases than SQLite. Trusted: Coq kernel, the hand transcription (normalised-source pin "
+    "+ comparison after every operation), the snapshot-stack database semantics (transcribed from "
+    "engine/RefDb.v, which C23 validates against sqlite3). No axioms."
+)
 TECHNIQUE = "Coq invariant proofs over an executable session model; T1 table check; source pin; model/impl correspondence after every operation on SQLite; direct oracle"
